@@ -73,7 +73,7 @@ ASSUMPTIONS = [
     "runs as root; chroot(2) available (used for the offset '/' half)",
     "behaviour for a recorded directory that is a symlink on disk is not judged (statement silent)",
 ]
-BUDGET = {"quick": 50, "thorough": 900}
+BUDGET = {"quick": 30, "thorough": 840}
 
 TRIGGERS = ["merge", "unmerge", "basesys"]
 
@@ -461,7 +461,7 @@ def evaluate(ctx, case, record=True):
 def plan(tier, seed):
     if tier == "quick":
         return [{"task": "hyp", "examples": 300} for _ in range(16)]
-    return [{"task": "hyp", "examples": 6000} for _ in range(32)]
+    return [{"task": "hyp", "examples": 3000} for _ in range(32)]
 
 
 def run_task(ctx, task, **kw):
@@ -469,7 +469,7 @@ def run_task(ctx, task, **kw):
         raise core.HarnessError(f"unknown task {task}")
     try:
         M.warm_up(ctx)
-        core.hyp_run(ctx, cases(), lambda c: evaluate(ctx, c), kw["examples"], chunk=100)
+        core.hyp_run(ctx, cases(), lambda c: evaluate(ctx, c), kw["examples"], chunk=50)
     finally:
         M.cleanup()
 
